@@ -224,6 +224,27 @@ def namedOKB (p : Program) (cfg : Cfg) (H : BodyFn) : Bool :=
   let h := runOrderL (nodeDs p cfg H) (List.range (allInstances p).length) []
   (flowSources p cfg).all fun q => h.get (.obs q.1 q.2.1) == h.get (.out q.2.2.1 q.2.2.2)
 
+/-! ### deferred write-backs (what the communication thread may do)
+  `complete_hook` does not copy into the collection itself: it queues a DEP_MEMCPY command; the communication thread
+  performs the copy later (reading the source copy THEN).  `deferredRun` = one such behaviour: all bodies of `order` first,
+  then all write-backs.  For programs satisfying `asyncSafeB` it cannot be told from the synchronous model; without it the
+  sequential-execution statement is false (Props/C02.lean: `C02_final_async_full_false`). -/
+
+/-- the body of a node without its write-backs -/
+def nodeBodyD (H : BodyFn) (j : Nat) (t : Instance) (fl : List FlowD) : NodeD :=
+  nodeD H j t (fl.map fun f => { f with wbs := [] })
+
+/-- the write-backs of a node executed on their own: tile e := the content the flow's copy has at that moment -/
+def nodeWbD (fl : List FlowD) : NodeD :=
+  { reads := nodeReads fl,
+    targets := fl.flatMap fun f => match f.copy with | some _ => f.wbs.map Cell.tile | none => [],
+    writes := fun vs => wbPiece fl (getLoc ((nodeReads fl).zip vs)) }
+
+def deferredRun (p : Program) (cfg : Cfg) (H : BodyFn) (order : List Nat) : Heap :=
+  let fls := nodeFlows p cfg
+  let bodies := (enumFrom 0 ((allInstances p).zip fls)).map fun x => nodeBodyD H x.1 x.2.1 x.2.2
+  runOrder (fls.map nodeWbD) order (runOrder bodies order initHeap)
+
 /-- the nodes of a trace in the order of their completions -/
 def endOrder (log : List Dataflow.Ev) : List Nat := log.filterMap fun e => match e with | .end_ i => some i | _ => none
 
